@@ -1,6 +1,7 @@
 package rules
 
 import (
+	"go/types"
 	"fmt"
 
 	"golang.org/x/tools/go/ssa"
@@ -109,30 +110,38 @@ func c10Refuse(p *core.Prog, r *core.Report) {
 		checks := core.CallsIn(f, "messageExchange.checkError")
 		// every frame acquisition / queue operation is preceded by checkError whose failing arm returns
 		ok := len(checks) >= 1
-		var guarded ssa.Instruction
+		var guarded []ssa.Instruction
 		core.EachInstr(f, func(i ssa.Instruction) {
 			switch x := i.(type) {
 			case *ssa.Select:
 				for _, st := range x.States {
 					if core.LoadedField(st.Chan) == sendChF {
-						guarded = i
+						guarded = append(guarded, i)
+						break
 					}
+				}
+			case *ssa.Send:
+				if core.LoadedField(x.Chan) == sendChF {
+					guarded = append(guarded, i)
 				}
 			case *ssa.Call:
 				if _, isGet := core.IsCall(i, "FramePool.Get"); isGet {
-					guarded = i
+					guarded = append(guarded, i)
 				}
 			}
 		})
-		if guarded == nil {
+		if len(guarded) == 0 {
 			r.Errorf("%s: no frame acquisition / queue operation found", fname(f))
 			continue
 		}
-		if ok {
-			fs := factsAt(guarded.Block())
-			ok = fs.nilCmp(func(v ssa.Value) bool { return callResult(v, "messageExchange.checkError") != nil }, true)
+		for k, g := range guarded {
+			okG := ok && factsAt(g.Block()).nilCmp(func(v ssa.Value) bool { return callResult(v, "messageExchange.checkError") != nil }, true)
+			construct := "checkError() == nil before touching the frame pool / send queue"
+			if k > 0 {
+				construct += fmt.Sprintf(" #%d", k+1)
+			}
+			r.Check(okG, "C10-R2", fname(f), construct, p.Pos(g.Pos()), "dominated by the exchange's error check", "a response fragment can be built or queued after the exchange expired or failed")
 		}
-		r.Check(ok, "C10-R2", fname(f), "checkError() == nil before touching the frame pool / send queue", p.Pos(guarded.Pos()), "dominated by the exchange's error check", "a response fragment can be built or queued after the exchange expired or failed")
 	}
 }
 
@@ -253,6 +262,49 @@ func c10Relay(p *core.Prog, r *core.Report) {
 		if n < 2 {
 			r.Errorf("relay handleCallReq: expected at least 2 admission error frames, found %d", n)
 		}
+		// the same for helpers that answer a call req themselves (the local
+		// handler path): once such a helper has sent an error frame it reports
+		// the call as handled, and handleCallReq stops on "handled"
+		core.EachInstr(f, func(i ssa.Instruction) {
+			c, ok := i.(*ssa.Call)
+			if !ok {
+				return
+			}
+			g := c.Call.StaticCallee()
+			if g == nil || !p.InAnalysed(g) || len(g.Blocks) == 0 || g.Signature.Results().Len() != 1 {
+				return
+			}
+			if b, isB := g.Signature.Results().At(0).Type().Underlying().(*types.Basic); !isB || b.Kind() != types.Bool {
+				return
+			}
+			sends := core.CallsIn(g, "Connection.SendSystemError")
+			if len(sends) == 0 {
+				return
+			}
+			for k, snd := range sends {
+				res := core.ReachAvoiding(g, snd.(ssa.Instruction), func(j ssa.Instruction) bool {
+					ret, isRet := j.(*ssa.Return)
+					if !isRet {
+						return false
+					}
+					b, isB := core.ConstBool(core.ReturnValues(ret)[0])
+					return !isB || !b
+				}, nil, nil)
+				r.Check(!res.Found, "C10-R3", fname(g), fmt.Sprintf("error frame #%d sent by the helper => the call is reported handled", k+1), p.Pos(snd.Pos()),
+					"every return after the error frame is `true`", "the helper sends an error frame and still reports the call as not handled: handleCallReq goes on to relay it (second terminal frame): "+p.TrailString(res))
+			}
+			// the caller stops on handled
+			stops := false
+			for _, ref := range *c.Referrers() {
+				if ifi, isIf := ref.(*ssa.If); isIf {
+					arm := ifi.Block().Succs[0]
+					if !core.ReachAvoiding(f, arm.Instrs[0], isAdmit, nil, nil).Found && !isAdmit(arm.Instrs[0]) {
+						stops = true
+					}
+				}
+			}
+			r.Check(stops, "C10-R3", fname(f), "handleCallReq stops when "+g.Name()+" handled the call", p.Pos(c.Pos()), "the handled arm reaches no registration or forward", "a call already answered by "+g.Name()+" is relayed as well")
+		})
 	}
 	if f := mustFunc(p, r, "", "Relayer", "timeoutRelayItem"); f != nil {
 		sends := core.CallsIn(f, "Connection.SendSystemError")
